@@ -116,6 +116,22 @@ impl EncoderWork {
         self.original_received_count = 0;
     }
 
+    /// Verification hook: bookkeeping state of this working space.
+    #[cfg(feature = "verif-hooks")]
+    pub fn verif_snapshot(&self) -> crate::verif::EncoderSnapshot {
+        let (work_count, data_ptr, data_len, data_capacity) = self.shards.verif_info();
+        crate::verif::EncoderSnapshot {
+            original_count: self.original_count,
+            recovery_count: self.recovery_count,
+            shard_bytes: self.shard_bytes,
+            original_received_count: self.original_received_count,
+            work_count,
+            data_ptr,
+            data_len,
+            data_capacity,
+        }
+    }
+
     pub(crate) fn undo_last_chunk_encoding(&mut self) {
         self.shards
             .undo_last_chunk_encoding(self.shard_bytes, 0..self.recovery_count);
